@@ -127,6 +127,20 @@ PROPS['C16'] = dict(
     not_covered=['equality of return values and logical contents of whole histories across configurations', 'that strict mode never rejects a valid commit (needs completeness of TxInner::check)', 'Node::split thresholds (float arithmetic) until unit N4 is built'],
 )
 
+PROPS['C08'] = dict(
+    level='proof',
+    units=['range'],
+    explanation='Ranges: Range::next is verified on its real body for a generic R: RangeBounds<&[u8]> (all nine combinations of included / excluded / unbounded) against the '
+                'documented Cursor semantics: everything yielded lies within both bounds and is the entry at the cursor; on the first call no entry that satisfies both bounds is '
+                'skipped; later calls advance by exactly one entry and yield None only at the end or beyond the upper bound; the cursor stays well-formed.',
+    level_text='Single-step contract of the range iterator proved for every bucket content, every key and every bound; the whole-scan statement follows by induction over calls (paper).',
+    level_note='RELATIVE to the assumed Cursor contract (prelude/cursor_contract.rs: seek stops at the key or just before where it would be; first next yields the current slot; next after the end is harmless) '
+               'until the cursor unit is built. Byte-string order is an uninterpreted strict total order.',
+    assumptions=[A_TOOLS, 'Cursor::{seek,current,next} by assumed contract over an abstract ascending key sequence', 'byte-string comparison is a strict total order (axiom_key_order); rule R10: `a < *b` on &[u8] compares the slices',
+                 'the RangeBounds implementation agrees with its vstd specification (true for every std range type and (Bound, Bound))'],
+    not_covered=['in-order traversal of the tree by Cursor (assumed contract)', 'bucket-only / pair-only filters (R3)'],
+)
+
 PENDING = 'not claimed yet in this build session: deciding units are not built (see DESIGN section 10)'
 NOT_APPLICABLE = {
     'C04': 'quantifies over thread schedules; Kani has no threads, Verus would need the code rewritten onto its permission types (a model) — DESIGN section 6',
@@ -134,5 +148,5 @@ NOT_APPLICABLE = {
     'C13': 'quantifies over schedules of OS processes and flock semantics; a sequential contract cannot decide mutual exclusion — DESIGN section 6',
     'C14': 'quantifies over client programs and is decided by rustc borrow/Send checking of each program, not by contracts on jammdb bodies — DESIGN section 6',
 }
-for _p in ['C01', 'C05', 'C07', 'C08']:
+for _p in ['C01', 'C05', 'C07']:
     NOT_APPLICABLE.setdefault(_p, PENDING)
